@@ -22,6 +22,9 @@ type Obs struct {
 	// RegOrder: program instances in the order in which they were handed to the container.
 	// RegOwner (after a rejected registration only): name -> the object the singleton registry
 	// holds under that name once the application has recovered the rejection.
+	// Presets: "holder.field" -> id of the object the application put into that optional,
+	// unsatisfiable point before Run.
+	Presets map[string]string `json:"presets,omitempty"`
 	// CfgLate: configuration fields of lazy components, read after the by-name lookups.
 	CfgLate  map[string]map[string]string `json:"cfgLate,omitempty"`
 	RegOrder []string          `json:"regOrder,omitempty"`
